@@ -134,7 +134,7 @@ Section Refine.
     snd (m_get av hs excl eids m i e) = snd (a_mget unit av hs excl eids m i S) /\
     absrel unit (fst (m_get av hs excl eids m i e)) (fst (a_mget unit av hs excl eids m i S)).
   Proof.
-    induction m as [sid|sid touch d| |l|sid|m IH|sid mode selmod selrem d others|k mode d|sid]; intros e S H; cbn [m_get a_mget].
+    induction m as [sid|sid touch d| |l|sid|m IH|sid mode selmod selrem d others|k mode d|sid|bop ba bb]; intros e S H; cbn [m_get a_mget].
     - destruct (env_jact_abs e S sid (JRead i) H) as [X1 X2].
       destruct (env_jact e sid _) as [e1 t1]. destruct (a_jact unit S sid _) as [S1 t2]. cbn [fst snd] in *. subst. auto.
     - destruct (env_jact_abs e S sid (JAccess i touch d) H) as [X1 X2].
@@ -162,6 +162,7 @@ Section Refine.
       + split; [reflexivity | apply absrel_fail; assumption].
     - destruct (env_jact_abs e S sid (JRemove i) H) as [X1 X2].
       destruct (env_jact e sid _) as [e1 t1]. destruct (a_jact unit S sid _) as [S1 t2]. cbn [fst snd] in *. subst. auto.
+    - cbn [fst snd]. auto.
   Qed.
 
   Lemma visit_members_abs av hs excl eids ms i : forall e S, absrel unit e S ->
